@@ -801,4 +801,113 @@ theorem agree_addPending {g : Group} (h : Agree g) (c : Name) {ids : List Id} (h
   obtain ⟨n, hn⟩ := Option.isSome_iff_exists.mp (alGet_consCreate_self c g.consumers)
   exact agree_foldl_addOne ids (agree_createConsumer h c) hn hnd hfresh
 
+/-! ### the repaired add_pending: re-delivered ids change hands as with XCLAIM -/
+
+theorem agreeCore_setTotal {g : Group} (h : AgreeCore g) (t : Nat) : AgreeCore { g with totalPending := t } :=
+  { sorted := h.sorted, bcKeys := h.bcKeys, csKeys := h.csKeys, lists := h.lists, own₁ := h.own₁, own₂ := h.own₂,
+    cnt₁ := h.cnt₁, cnt₂ := h.cnt₂, bmin := h.bmin, bmax := h.bmax }
+
+/-- one step of the repaired loop keeps the representations (all but the deferred total) in agreement, keeps the
+    reader a consumer, and the number of rows grows exactly by the number of new ids -/
+theorem deliverOneFixed_spec {c : Name} {s : Group × Nat} (h : AgreeCore s.1) (hc : (alGet c s.1.consumers).isSome)
+    (id : Id) :
+    AgreeCore (deliverOneFixed c s id).1 ∧ (alGet c (deliverOneFixed c s id).1.consumers).isSome ∧
+    (deliverOneFixed c s id).1.byId.length + s.2 = s.1.byId.length + (deliverOneFixed c s id).2 ∧
+    (deliverOneFixed c s id).1.totalPending = s.1.totalPending ∧
+    (deliverOneFixed c s id).1.lastDelivered = s.1.lastDelivered := by
+  unfold deliverOneFixed
+  cases hf : pelFind id s.1.byId with
+  | some e =>
+    simp only
+    obtain ⟨f1, f2, f3, f4⟩ := claimOne_fields c true s.1 id
+    exact ⟨agreeCore_claimOne h c true id hc, f4 hc, by rw [f3], f1, f2⟩
+  | none =>
+    simp only
+    obtain ⟨n, hn⟩ := Option.isSome_iff_exists.mp hc
+    have hfresh : ∀ e ∈ s.1.byId, e.id ≠ id := pelFind_none.mp hf
+    -- the same state with its total brought up to date agrees fully; `agree_addOne` applies to it
+    have hA : Agree { s.1 with totalPending := s.1.byId.length } :=
+      { toAgreeCore := agreeCore_setTotal h _, total := rfl }
+    have h1 := agree_addOne hA (c := c) (n := n) hn (id := id) hfresh
+    refine ⟨?_, ?_, ?_, rfl, rfl⟩
+    · have := agreeCore_setTotal h1.toAgreeCore s.1.totalPending
+      exact this
+    · show (alGet c (consAdjust c (· + 1) s.1.consumers)).isSome
+      rw [alGet_consAdjust, hn]; simp
+    · show (pelInsert ⟨id, c, 1⟩ s.1.byId).length + s.2 = s.1.byId.length + (s.2 + 1)
+      rw [length_pelInsert_fresh (by simpa using hfresh)]; omega
+
+theorem foldl_deliverOneFixed_spec {c : Name} (ids : List Id) : ∀ {s : Group × Nat}, AgreeCore s.1 →
+    (alGet c s.1.consumers).isSome →
+    AgreeCore (ids.foldl (deliverOneFixed c) s).1 ∧
+    (ids.foldl (deliverOneFixed c) s).1.byId.length + s.2 = s.1.byId.length + (ids.foldl (deliverOneFixed c) s).2 ∧
+    (ids.foldl (deliverOneFixed c) s).1.totalPending = s.1.totalPending ∧
+    (ids.foldl (deliverOneFixed c) s).1.lastDelivered = s.1.lastDelivered := by
+  induction ids with
+  | nil => intro s h _; exact ⟨h, rfl, rfl, rfl⟩
+  | cons id ids ih =>
+    intro s h hc
+    simp only [List.foldl_cons]
+    obtain ⟨a1, a2, a3, a4, a5⟩ := deliverOneFixed_spec h hc id
+    obtain ⟨b1, b2, b3, b4⟩ := ih a1 a2
+    exact ⟨b1, by omega, by rw [b3, a4], by rw [b4, a5]⟩
+
+/-- The repaired `add_pending` preserves agreement for EVERY id list — fresh ids, ids that are already pending for
+    anyone, repeats. -/
+theorem agree_addPendingFixed {g : Group} (h : Agree g) (c : Name) (ids : List Id) :
+    Agree (addPendingFixed g c ids) := by
+  have h0 := agree_createConsumer h c
+  obtain ⟨b1, b2, b3, _⟩ := foldl_deliverOneFixed_spec (c := c) ids (s := (createConsumer g c, 0)) h0.toAgreeCore
+    (alGet_consCreate_self c g.consumers)
+  have hA : Agree { (ids.foldl (deliverOneFixed c) (createConsumer g c, 0)).1 with
+      totalPending := (ids.foldl (deliverOneFixed c) (createConsumer g c, 0)).1.totalPending +
+        (ids.foldl (deliverOneFixed c) (createConsumer g c, 0)).2 } := by
+    refine { toAgreeCore := agreeCore_setTotal b1 _, total := ?_ }
+    show _ + _ = (ids.foldl (deliverOneFixed c) (createConsumer g c, 0)).1.byId.length
+    have b3' : (ids.foldl (deliverOneFixed c) (createConsumer g c, 0)).1.totalPending = (createConsumer g c).totalPending := b3
+    have b2' : (ids.foldl (deliverOneFixed c) (createConsumer g c, 0)).1.byId.length + 0 =
+        (createConsumer g c).byId.length + (ids.foldl (deliverOneFixed c) (createConsumer g c, 0)).2 := b2
+    rw [b3']
+    have := h0.total
+    omega
+  unfold addPendingFixed
+  simp only
+  cases ids.getLast? with
+  | none => exact hA
+  | some l =>
+    simp only
+    split
+    · exact agree_setLast hA l
+    · exact hA
+
+theorem deliverOneFixed_last (c : Name) (s : Group × Nat) (id : Id) :
+    (deliverOneFixed c s id).1.lastDelivered = s.1.lastDelivered := by
+  unfold deliverOneFixed
+  cases pelFind id s.1.byId with
+  | some e => exact (claimOne_fields c true s.1 id).2.1
+  | none => rfl
+
+theorem foldl_deliverOneFixed_last (c : Name) (ids : List Id) (s : Group × Nat) :
+    (ids.foldl (deliverOneFixed c) s).1.lastDelivered = s.1.lastDelivered := by
+  induction ids generalizing s with
+  | nil => rfl
+  | cons id ids ih => simp only [List.foldl_cons, ih, deliverOneFixed_last]
+
+theorem addPendingFixed_last (g : Group) (c : Name) (ids : List Id) :
+    (addPendingFixed g c ids).lastDelivered =
+      match ids.getLast? with
+      | some l => if idLt g.lastDelivered l then l else g.lastDelivered
+      | none => g.lastDelivered := by
+  have hl : (ids.foldl (deliverOneFixed c) (createConsumer g c, 0)).1.lastDelivered = g.lastDelivered :=
+    foldl_deliverOneFixed_last c ids _
+  unfold addPendingFixed
+  simp only
+  cases ids.getLast? with
+  | none => first | rfl | exact hl
+  | some l =>
+    simp only [hl]
+    split
+    · rfl
+    · first | rfl | exact hl
+
 end Ferrous.Grp
